@@ -1464,7 +1464,13 @@ _dispatch_queue_adjust_owned(dispatch_queue_class_t dq, uint64_t owned,
 	uint64_t reservation;
 
 	if (unlikely(dq_width > 1)) {
-		if (next_dc && _dispatch_object_is_barrier(next_dc)) {
+		if (next_dc && _dispatch_object_is_barrier(next_dc) &&
+				// the drainer (who owns the drain lock, so the bit is stable)
+				// may already have made the reservation itself in
+				// _dispatch_queue_try_upgrade_full_width() and come back after
+				// a failed unlock: reserving twice corrupts the width
+				!_dq_state_has_pending_barrier(os_atomic_load2o(dq._dq,
+						dq_state, relaxed))) {
 			reservation  = DISPATCH_QUEUE_PENDING_BARRIER;
 			reservation += (dq_width - 1) * DISPATCH_QUEUE_WIDTH_INTERVAL;
 			owned -= reservation;
